@@ -243,6 +243,10 @@ def sym_input(name, dims, dtype="float64", digits=None):
             ax.append(v)
             flat.append(v)
         axes.append(ax)
+    if not str(dtype).startswith("complex"):
+        X.REAL_INPUTS.add(name)
+    else:
+        X.REAL_INPUTS.discard(name)
     INPUTS[name] = dict(digits=[VSIZE[v] for v in flat], axes=[[flat.index(v) for v in a] for a in axes], dtype=dtype)
     return GTensor(axes, X.entry(name, flat), dtype)
 
@@ -713,10 +717,12 @@ def _expand_index(t, idx):
 
 def getitem(t, idx):
     log("getitem")
-    if isinstance(idx, GTensor) or isinstance(idx, np.ndarray) or isinstance(idx, list):
+    if isinstance(idx, np.ndarray) or isinstance(idx, list):
         raise EngineError("advanced indexing in E1-generic")
     t = inst(t)
     items = _expand_index(t, idx)
+    if sum(1 for it in items if isinstance(it, GTensor)) > 1:
+        raise EngineError("more than one index tensor")
     axes = []
     body = t.body
     ai = 0
@@ -755,6 +761,18 @@ def getitem(t, idx):
             v2 = fresh(stop, "p")
             body = body.subst({ax[0]: v2})
             axes.append([v2])
+            continue
+        if isinstance(it, GTensor):
+            # gather with a symbolic integer index vector: t[idx, ...] (values assumed in range by the caller's contract)
+            g = inst(it)
+            if len(ax) != 1 or g.ndim != 1:
+                raise EngineError("gather on composite axis / non-vector index")
+            ts = g.body.terms
+            if len(ts) != 1 or ts[0].coef != 1 or ts[0].bound or len(ts[0].facs) != 1 or ts[0].facs[0][0][0] != "E" or ts[0].facs[0][1] != 1:
+                raise EngineError("index tensor is not a plain symbolic integer input")
+            ea = ts[0].facs[0][0]
+            body = body.subst({ax[0]: ("G", ea[1], ea[2])})
+            axes.append(list(g.axes[0]))
             continue
         if isinstance(it, (builtins.int, np.integer, SInt)):
             n = sprod(VSIZE[v] for v in ax)
@@ -870,7 +888,16 @@ def tensors_equal(a, b):
             return False, f"axis digit structure differs: {[VSIZE[u] for u in x]} vs {[VSIZE[u] for u in y]} (shapes {a.shape} vs {b.shape})"
         for u, w in zip(x, y):
             sub[w] = u
-    ok, d = X.equal(a.body, b.body.subst(sub))
+    bb = b.body.subst(sub)
+    conc = [v for v in a.digits() if not isinstance(VSIZE[v], SInt) or VSIZE[v].is_const()]
+    if conc and sprod(builtins.int(VSIZE[v]) for v in conc) <= 64:
+        for vals in itertools.product(*[range(builtins.int(VSIZE[v])) for v in conc]):
+            s2 = dict(zip(conc, vals))
+            ok, d = X.equal(a.body.subst(s2), bb.subst(s2))
+            if not ok:
+                return False, [f"at {s2}"] + X.describe_key(d)
+        return True, None
+    ok, d = X.equal(a.body, bb)
     return ok, (None if ok else X.describe_key(d))
 
 
@@ -908,7 +935,14 @@ def eval_term(t, free, env, inputs):
         return np.arange(sizes[pos[v]]).reshape(shp)
 
     def idx_val(i):
-        return grid(i) if isinstance(i, str) else i
+        if isinstance(i, str):
+            return grid(i)
+        if isinstance(i, tuple) and i and i[0] == "G":
+            arr = np.asarray(inputs[i[1]])
+            dig = [builtins.int(SInt.lift(s).subs(env)) for s in INPUTS[i[1]]["digits"]]
+            arr = arr.reshape(dig)
+            return arr[tuple(idx_val(j) for j in i[2])].astype(builtins.int)
+        return i
 
     val = np.ones([1] * nd, dtype=float) * float(t.coef) if nd else np.array(float(t.coef))
     for a, ex in t.facs:
